@@ -6,7 +6,7 @@ from typing import Dict, Optional, List, Tuple
 from sympy import Eq, sympify, expand
 from sympy import symbols, simplify, Expr, Add, Mul, Pow, Symbol, Float
 from sympy.core.numbers import Zero, NegativeOne, One, Integer
-from sympy.logic.boolalg import BooleanTrue
+from sympy.logic.boolalg import BooleanTrue, BooleanFalse
 from sympy.parsing.sympy_parser import parse_expr
 
 SYMPY_OP_TO_PDDL_OP = {
@@ -259,6 +259,12 @@ def simplify_equality(
 
     if isinstance(simplified_equation, BooleanTrue):
         return None
+
+    if isinstance(simplified_equation, BooleanFalse):
+        # a contradiction cannot be simplified any further - keeping the equation as it was given.
+        simplified_equation = Eq(
+            transformed_left_expr, transformed_right_expr, evaluate=False
+        )
 
     pddl_left_side = convert_expr_to_pddl(
         simplified_equation.lhs, symbolic_vars, decimal_digits=decimal_digits
